@@ -277,7 +277,7 @@ func negCycleChild(args []string) {
 func run(c *Ctx) {
 	QuietLogs()
 	im := NewImpl("C01", c.Seed, c.Tier)
-	im.Rule = "white-box: random known graphs (2-40 nodes, costs 1..9, symmetric and stale asymmetric edges, non-key neighbours, partitions) installed in a real node, updateRoutingTable run; non-trivial = at least 3 reachable and at least one unreachable known node; mesh: random topologies of 3-7 real nodes with event histories; non-trivial = at least one link cut and one cycle; distinct by full case"
+	im.Rule = "white-box: random known graphs (2-40 nodes, costs 1..9, symmetric and stale asymmetric edges, non-key neighbours, partitions) installed in a real node, updateRoutingTable run; non-trivial = at least 3 reachable and at least one unreachable known node; mesh: random topologies of 3-7 real nodes with event histories; non-trivial = at least one link cut and one cycle; slow-close (slowclose.go): a line of three and random connected meshes of 3-5 real nodes in which one link's sessions have a backend Close that blocks (either or both ends); the link fails, both ends drop it, the same peer re-dials at once (same or another cost) and the new session is established while the old Close is still in progress, 1-4 update periods later the old Close returns (last event); one round in four is the control where the old Close returns before the re-dial; non-trivial = the new session was established during the old Close; a failed verdict is replayed from scratch once; distinct by full case"
 	cf := &CaseFile{Dir: c.Out, Prop: "C01", Imports: []string{"Model.Route"}, CaseType: "route_case", CheckFn: "route_case_check", PerShard: 100}
 	wbGraphs(c, im, cf)
 	// termination guard (hypothesis [positive] of the routing theorems must be enforced at the
@@ -296,6 +296,7 @@ func run(c *Ctx) {
 	silentCrashHistory(c, im)
 	silentLinkHistory(c, im)
 	lateHandshakeHistory(c, im)
+	slowCloseHistory(c, im)
 	meshHistories(c, im)
 	Must(cf.Write())
 	Must(im.Write(c.Out))
